@@ -222,8 +222,12 @@ def removal_span_rule(fb, it):
     if not (kv[0] == "unwrap" and kv[1][0] == "call" and kv[1][1].endswith("MerkleTree::<D, H>::get") and kv[1][2] == (F(P(1), "tree"), i2)):
         return False, "a position that is not removed receives %s, specification its current leaf tree.get(i)" % sh(kv, 100)
     first = ("idx", P(2), mk_const("usize", 0))
-    if rng is None or rng[0] != first or "last" not in sh(rng[1], 200):
-        return False, "the span is %s, specification indices[0] .. last+1" % (rng,)
+    lastp1 = rng is not None and isinstance(rng[1], tuple) and (
+        (rng[1][0] == "call" and rng[1][1].endswith("Add<usize>>::add") and len(rng[1][2]) == 2 and rng[1][2][0] == ("unwrap", ("call", "core::slice::<impl [T]>::last", (P(2),))) and cint(rng[1][2][1]) == 1)
+        or (rng[1][:2] == ("bin", "Add") and rng[1][2] == ("unwrap", ("call", "core::slice::<impl [T]>::last", (P(2),))) and cint(rng[1][3]) == 1))
+    if rng is None or rng[0] != first or not lastp1:
+        return False, ("the span is %s .. %s, specification exactly indices[0] .. last + 1 (a shorter span leaves removed positions in place and can hand the "
+                       "storage tree an empty batch; a longer one rewrites positions outside the removal set)" % (sh(rng[0], 60) if rng else None, sh(rng[1], 120) if rng else None))
     wr = [c for p in paths for c in p.calls(r"MerkleTree::<D, H>::set_range$")]
     if not wr or any(c[2][1] != first or not (c[2][2][0] == "phi" and c[2][2][3] == "new_leaves") for c in wr):
         return False, "the values are written with set_range(%s, %s), specification set_range(indices[0], values)" % (sh(wr[0][2][1], 40) if wr else None, sh(wr[0][2][2], 40) if wr else None)
